@@ -43,7 +43,7 @@ func (w *World) checkNode(n *Node, st *State, phase string) {
 	if w.stop {
 		return
 	}
-	if n.isPartial() && w.on("partial") && !n.tainted {
+	if n.isPartial() && w.on("partial") && !n.tainted && !n.cfg.FullRoots {
 		w.checkPartialContent(n, st, phase)
 	}
 }
